@@ -3,6 +3,7 @@
 import json, os, glob
 HERE = os.path.dirname(os.path.dirname(os.path.abspath(__file__)))
 rows = []
+stats = {'total': 0, 'caught': 0, 'undecided': 0, 'missed': 0, 'neutralised': 0, 'first_caught': 0}
 for d in sorted(glob.glob(os.path.join(HERE, 'seeded', '*'))):
     try:
         m = json.load(open(os.path.join(d, 'meta.json')))
@@ -16,11 +17,28 @@ for d in sorted(glob.glob(os.path.join(HERE, 'seeded', '*'))):
             if l.startswith('VIOLATION'):
                 rep = l.split('replay=')[1].split()[0]
                 caught.append(os.path.basename(rep).replace('.json', '') + (' (no input)' if l.endswith('no-failing-input-found') else ''))
-    status = 'caught' if c.get('detected') else ('undecided (exit 2)' if any(r.get('exit') == 2 for r in checks.values()) else 'MISSED')
+    hist = m.get('history', [])
+    first = hist[0] if hist else {'detected': c.get('detected')}
+    first_txt = 'caught' if first.get('detected') else ('undecided' if 2 in (first.get('checks') or {}).values() else 'missed')
     if c.get('neutralised'):
-        status = 'n/a: ' + c['neutralised']
-    rows.append('| %s | %s | %s | %s |' % (os.path.basename(d), (m.get('summary') or '')[:170].replace('|', '/'), status,
-                                         '; '.join(caught[:3])[:160]))
-print('| seed | change (sub-agent\'s summary) | result | obligations / stand-in that fired |')
-print('|---|---|---|---|')
+        status = 'n/a (' + c['neutralised'].split(' on HEAD')[0] + ')'
+        stats['neutralised'] += 1
+    elif c.get('detected'):
+        status = 'caught'
+        stats['caught'] += 1
+    elif any(r.get('exit') == 2 for r in checks.values()):
+        status = 'undecided (exit 2)'
+        stats['undecided'] += 1
+    else:
+        status = 'MISSED'
+        stats['missed'] += 1
+    stats['total'] += 1
+    stats['first_caught'] += 1 if first.get('detected') else 0
+    rows.append('| %s | %s | %s | %s | %s |' % (os.path.basename(d), (m.get('summary') or '')[:150].replace('|', '/').replace('\n', ' '),
+                                              first_txt, status, '; '.join(caught[:2])[:120]))
+print('%d confirmed changes: at first evaluation %d caught; on the final tree %d caught, %d undecided (exit 2), %d missed, '
+      '%d neutralised by a later fix.\n' % (stats['total'], stats['first_caught'], stats['caught'], stats['undecided'],
+                                             stats['missed'], stats['neutralised']))
+print('| seed | change (sub-agent\'s summary) | first result | final result | obligations / stand-in that fired |')
+print('|---|---|---|---|---|')
 print('\n'.join(rows))
